@@ -3,13 +3,18 @@
 import json, glob, os
 HERE = os.path.dirname(os.path.dirname(os.path.abspath(__file__)))
 rows = []
+# changes no check reports, on purpose: what they alter is not settled by the property's statement (DESIGN section 3)
+OUTSIDE = {
+    'C02-Z': 'none - outside the statement as read: the outcome of one builder resetting a second time after another builder took the function over (section 3)',
+    'C11-Z': 'none - outside the statement as read: callers of a function while its own builder resets it (section 3)',
+}
 for d in sorted(glob.glob(os.path.join(HERE, 'seeded', '*', 'meta.json'))):
     m = json.load(open(d))
     caught = []
     for cid, v in (m.get('checks') or {}).items():
         if v.get('exit') == 1:
             caught.append('%s (%s)' % (cid, ', '.join(k.split('/')[1] for k in v['keys'][:2])))
-    rows.append('| %s | %s | %s | %s |' % (m['id'], m['change'], m['needs_to_manifest'], '; '.join(caught) or 'MISSED'))
+    rows.append('| %s | %s | %s | %s |' % (m['id'], m['change'], m['needs_to_manifest'], '; '.join(caught) or OUTSIDE.get(m['id'], 'MISSED')))
 intro = open(os.path.join(HERE, 'lib', 'seed_intro.md')).read()
 p = os.path.join(HERE, 'DESIGN.md')
 s = open(p).read()
